@@ -166,6 +166,9 @@ pub enum LAction {
     /// SIGSTOP now, SIGCONT after this much real time (a timer thread sends it, so the controller may
     /// itself be blocked on a child whose pipe has filled up behind the stalled listener)
     StopFor { ms: u32 },
+    /// SIGKILL, and a new `log tail` with the same arguments is listening on the same port before the run
+    /// takes its next step (somebody restarted the tail window)
+    Restart,
 }
 #[derive(Serialize, Deserialize, Clone, Debug, PartialEq)]
 pub struct LFault {
@@ -241,6 +244,17 @@ pub struct RunScript {
     /// and flushed, however loaded the machine is (a wall-clock pause alone would encode timing)
     #[serde(default)]
     pub quiesce_before_failures: bool,
+    /// arguments of the world's `log tail` listener (needed to start it again for LAction::Restart)
+    #[serde(default)]
+    pub listener_args: Vec<String>,
+}
+
+fn port_listening(port: u16) -> bool {
+    let want = format!(":{:04X}", port);
+    std::fs::read_to_string("/proc/net/tcp").unwrap_or_default().lines().skip(1).any(|l| {
+        let f: Vec<&str> = l.split_whitespace().collect();
+        f.len() > 3 && f[1].ends_with(&want) && f[3] == "0A"
+    })
 }
 
 /// No thread of `pid` is runnable (R) or in uninterruptible I/O (D) in `need` consecutive samples taken `gap`
@@ -297,6 +311,7 @@ impl RunScript {
             fs_write_fail: None,
             nofile: None,
             quiesce_before_failures: false,
+            listener_args: vec![],
         }
     }
     pub fn behav_for(&self, command: &str, target: &str) -> Option<&Behav> {
@@ -360,6 +375,8 @@ pub struct RunTrace {
     pub lfaults_fired: Vec<(LAction, usize)>,
     /// exit record of the listener if a fault killed it
     pub listener_exit: Option<ProcExit>,
+    /// process id (controller index) of the listener that replaced the original one
+    pub listener_restarted_as: Option<usize>,
     pub outs_acked: usize,
     pub real_pause_ms: u64,
     /// what every helper had written (acknowledged) when the first failing exit was about to be issued
@@ -451,6 +468,9 @@ pub fn drive_run_l(w: &mut World, actor: &str, sc: &RunScript, hang: Duration, l
     };
     let argv0_map = w.argv0_map.clone();
     let root = w.root.clone();
+    let mut restart_cmd = if sc.lfaults.iter().any(|f| f.action == LAction::Restart) && !sc.listener_args.is_empty() { Some(w.monorail_cmd(&sc.listener_args)) } else { None };
+    let log_port = w.ports.log;
+    let mut listener = listener;
     let ctl = w.ctl.as_mut().unwrap();
     let mut rng = Rng::new(sc.sched_seed);
     tr.log.push(format!("start {} {}", actor, args.join(" ")));
@@ -492,6 +512,26 @@ pub fn drive_run_l(w: &mut World, actor: &str, sc: &RunScript, hang: Duration, l
                                 if tr.listener_exit.is_none() {
                                     ctl.kill(l);
                                     tr.listener_exit = ctl.wait_exit(l, Duration::from_secs(5));
+                                }
+                            }
+                            LAction::Restart => {
+                                if tr.listener_exit.is_none() {
+                                    ctl.kill(l);
+                                    let _ = ctl.wait_exit(l, Duration::from_secs(5));
+                                    match restart_cmd.take().map(|c| ctl.spawn("L2", c, false)) {
+                                        Some(Ok(nl)) => {
+                                            let t0 = std::time::Instant::now();
+                                            while !port_listening(log_port) && t0.elapsed() < Duration::from_secs(5) {
+                                                std::thread::sleep(Duration::from_micros(500));
+                                            }
+                                            listener = Some(nl);
+                                            tr.listener_restarted_as = Some(nl);
+                                        }
+                                        _ => {
+                                            // could not be started again: it simply stays dead
+                                            tr.listener_exit = Some(ProcExit { proc_id: l, code: None, signal: Some(9), stdout: vec![], stderr: vec![] });
+                                        }
+                                    }
                                 }
                             }
                             LAction::Stop => ctl.signal(l, libc::SIGSTOP),
